@@ -136,6 +136,7 @@ def mps_solver_selection(n):
         pa = env.mod("emu_base.pulser_adapter")
         solver_mod = env.mod("emu_mps.solver")
         solver = env.choice("solver", ["tdvp", "dmrg"])
+        solver_as_enum = env.boolean("solver given as enum")  # MPSConfig documents both spellings
         noisy = env.boolean("lindblad_noise")
         noise_types = env.choice("config_noise_types", [(), ("relaxation",), ("SPAM",)])
         kind = env.choice("hamiltonian_type", ["Rydberg", "XY"])
@@ -144,7 +145,7 @@ def mps_solver_selection(n):
         data, sym = make_data(env, n, 1, lindblad_ops=Ls, last_time=40)
         eig = (["r", "g", "x"] if kind == "Rydberg" else ["0", "1", "x"])[:dim]
         data = dataclasses.replace(data, hamiltonian_type=getattr(pa.HamiltonianType, kind), eigenstates=eig)
-        cfg = mps_config(optimize_qubit_ordering=False, solver=solver_mod.Solver(solver), noise_model=SimpleNamespace(noise_types=noise_types))
+        cfg = mps_config(optimize_qubit_ordering=False, solver=(solver_mod.Solver(solver) if solver_as_enum else solver), noise_model=SimpleNamespace(noise_types=noise_types))
         saved = (mm.Results, mm.Statistics)
         from harness.svcommon import Recorder
 
